@@ -528,16 +528,16 @@ def vectorize(f, **kw):
 
 
 # ----------------------------------------------------------------------------- reductions / predicates
-def sum(a, axis=None, **kw):  # noqa: A001
-    return asarray(a).sum(axis)
+def sum(a, axis=None, dtype=None, **kw):  # noqa: A001
+    return asarray(a).sum(axis, dtype=dtype)
 
 
 def prod(a, axis=None, **kw):
     return asarray(a).prod(axis)
 
 
-def cumsum(a, axis=None, **kw):
-    return asarray(a).cumsum(axis)
+def cumsum(a, axis=None, dtype=None, **kw):
+    return asarray(a).cumsum(axis, dtype=dtype)
 
 
 def min(a, axis=None, **kw):  # noqa: A001
